@@ -560,6 +560,8 @@ fn handle_out_delete<'a>(
         rt.block_on(core::server::LockServer::new(config.server.lock.clone()).acquire())?;
     #[cfg(pnordahl_monorail_verif)]
     let _verif_release = crate::verif::ReleaseGuard;
+    #[cfg(pnordahl_monorail_verif)]
+    crate::verif::point("lock.held");
     let i = app::out::OutDeleteInput::try_from(matches)?;
     let res = app::out::out_delete(&config.out_dir, &i);
     write_result(&res, output_options)?;
@@ -590,6 +592,8 @@ fn handle_run<'a>(
         rt.block_on(core::server::LockServer::new(config.server.lock.clone()).acquire())?;
     #[cfg(pnordahl_monorail_verif)]
     let _verif_release = crate::verif::ReleaseGuard;
+    #[cfg(pnordahl_monorail_verif)]
+    crate::verif::point("lock.held");
     let i = app::run::HandleRunInput::try_from(matches).unwrap();
     let invocation = env::args().skip(1).collect::<Vec<_>>().join(" ");
     let o = rt.block_on(app::run::handle_run(config, &i, &invocation, work_path))?;
@@ -621,6 +625,8 @@ fn handle_checkpoint_update<'a>(
         rt.block_on(core::server::LockServer::new(config.server.lock.clone()).acquire())?;
     #[cfg(pnordahl_monorail_verif)]
     let _verif_release = crate::verif::ReleaseGuard;
+    #[cfg(pnordahl_monorail_verif)]
+    crate::verif::point("lock.held");
     let i = app::checkpoint::CheckpointUpdateInput::try_from(matches)?;
     let res = rt.block_on(app::checkpoint::handle_checkpoint_update(
         config, &i, work_path,
@@ -650,6 +656,8 @@ fn handle_checkpoint_delete<'a>(
         rt.block_on(core::server::LockServer::new(config.server.lock.clone()).acquire())?;
     #[cfg(pnordahl_monorail_verif)]
     let _verif_release = crate::verif::ReleaseGuard;
+    #[cfg(pnordahl_monorail_verif)]
+    crate::verif::point("lock.held");
     let res = rt.block_on(app::checkpoint::handle_checkpoint_delete(config, work_path));
     write_result(&res, output_options)?;
     Ok(get_code(res.is_err()))
